@@ -492,6 +492,14 @@ Definition decode (sch : schema) (s : jbytes) : dres :=
       end
   end.
 
+(* HotSpotParamRuleJsonArrayParser copies the decoded elements into a fresh slice made with
+   make(): its result is never a nil slice, not even for the document `null` *)
+Definition parser_result (k : Z) (d : dres) : dres :=
+  match d with
+  | Rules n l => Rules (if k =? 3 then false else n) l
+  | _ => d
+  end.
+
 (* ---- the five wire schemas (Go json tags, in struct order) ------------------------------------- *)
 
 Definition flow_schema : schema :=
